@@ -1046,4 +1046,6 @@ func TestC07(t *testing.T) {
 	h.Run(c, "evalorder", c.N(15000, 150000), gen, oracle)
 	c.Rule("sametree: a program of the same generator (2-8 roots, half of them a statement around an operator chain a && b && ... / a || b || ... of 2-32 operands without inner parentheses, the deciding operand drawn) is parsed once and the one tree is run by 2-8 (mostly 2-4) goroutines at the same time, each in a fresh environment of its own, the runs meeting at a barrier before every root; one case in five after a solitary run of the tree; then once more alone; the whole once or twice, each time on a fresh parse; every run is compared with the reference interpreter like a solitary run; non-trivial = at least 3 probe leaves; distinct by goroutine count, warm/cold and source text")
 	h.Run(c, "sametree", c.N(300, 2000), genSameTree, oracleSameTree)
+	c.Rule("goconv: 1-3 statements around calls of Go functions whose parameters have concrete types a script value must be converted for (int, int32, uint8, float32, float64, string, []int64, []string, map[string]int64, func(int64) int64, a named integer type; 1, 2 and 3 parameters, fixed and variadic, 39 signatures) - plain, spread (list literal or a list handed over by a probe, also too short or not a list), wrong-count and anonymous calls, direct (assigned, in a list literal, left of ??, in a return list, in a multi-assignment, as an argument of another call, nested in each other), through go and through defer (top level and inside a function, also with a spread list); every argument is a probe-laden expression of a value that converts (a literal, a probe result held in an interface{}, an operator result, a float without fraction for an integer type, nil, an untyped list / map for a typed one, a script function for the Go func type) and in one call of four one argument is of a value that does not (a string, bool, list, map or function for a number, a list with an element that does not convert, ...); compared with the reference interpreter: trace, error presence, the values the callees received, bindings; non-trivial = an argument of a conversion callee holds a probe; distinct by source text")
+	h.Run(c, "goconv", c.N(3000, 30000), genGoConv, oracleGoConv)
 }
